@@ -408,17 +408,27 @@ func (c *Client) Connect(conn net.Conn) error {
 	wg := sync.WaitGroup{}
 	wg.Add(2)
 	errs := make(chan error, 2)
+	// negotiation must not outlive the loops it depends on
+	negCtx, negCancel := context.WithCancel(context.Background())
+	defer negCancel()
 	go func() {
 		defer wg.Done()
 		errs <- c.handleOutgoing()
+		negCancel()
 	}()
 	go func() {
 		defer wg.Done()
 		errs <- c.handleIncoming()
+		negCancel()
 	}()
 
 	if c.version > Version1_0_1 {
-		if err := c.negotiate(); err != nil {
+		if err := c.negotiate(negCtx); err != nil {
+			select {
+			case loopErr := <-errs:
+				return loopErr // the connection failed first; report that
+			default:
+			}
 			return err
 		}
 	}
@@ -1155,8 +1165,8 @@ func (c *Client) getSupportedVersion(ctx context.Context) (*GetSupportedVersionR
 // The Client will use the lesser of its configured version and the device's version,
 // or LLRP v1.0.1 if the device does not support version negotiation.
 // By default, newly created Clients use the max version supported by this package.
-func (c *Client) negotiate() error {
-	ctx := context.Background()
+func (c *Client) negotiate(parent context.Context) error {
+	ctx := parent
 	if c.timeout != 0 {
 		var cancel context.CancelFunc
 		ctx, cancel = context.WithTimeout(ctx, c.timeout)
@@ -1183,7 +1193,7 @@ func (c *Client) negotiate() error {
 		return err
 	}
 
-	ctx = context.Background()
+	ctx = parent
 	if c.timeout != 0 {
 		var cancel context.CancelFunc
 		ctx, cancel = context.WithTimeout(ctx, c.timeout)
